@@ -102,6 +102,11 @@ func (w *World) Expectation(rec *ScanRecord, gr *GroupRec) Expect {
 	case len(gv.MaybePods) > 0:
 		ex.Kind = "ambiguous"
 		return ex
+	case !normalShaped(gv):
+		// outside the input domain of section 3.1 (absurd magnitudes, negative requests,
+		// missing allocatable): only crash-freedom is claimed there (C20)
+		ex.Kind = "odd"
+		return ex
 	}
 	n, p, U := len(gv.Nodes), len(gv.Pods), len(gv.Untainted)
 	switch {
@@ -163,6 +168,45 @@ func (w *World) Expectation(rec *ScanRecord, gr *GroupRec) Expect {
 		}
 	}
 	return ex
+}
+
+// normalShaped: every node has positive allocatable CPU and memory, every request is
+// non-negative, and totals stay within the magnitudes escalator's int64 milli-unit arithmetic
+// can hold (section 3.1).
+func normalShaped(gv *GroupView) bool {
+	limMem := new(big.Int).Lsh(big.NewInt(1), 62)
+	limMem.Quo(limMem, big.NewInt(1000))
+	limCPU := new(big.Int).Lsh(big.NewInt(1), 50)
+	for _, n := range gv.Nodes {
+		c, m := ref.Capacity([]*v1.Node{n})
+		if c.Sign() <= 0 || m.Sign() <= 0 {
+			return false
+		}
+	}
+	for _, p := range gv.Pods {
+		c, m := ref.PodRequest(p)
+		if c.Sign() < 0 || m.Sign() < 0 {
+			return false
+		}
+		for _, ct := range append(append([]v1.Container{}, p.Spec.Containers...), p.Spec.InitContainers...) {
+			for _, q := range ct.Resources.Requests {
+				if q.Sign() < 0 {
+					return false
+				}
+			}
+		}
+	}
+	for _, v := range []*big.Int{gv.ReqMem, gv.CapMem} {
+		if v.Cmp(limMem) > 0 {
+			return false
+		}
+	}
+	for _, v := range []*big.Int{gv.ReqCPU, gv.CapCPU} {
+		if v.Cmp(limCPU) > 0 {
+			return false
+		}
+	}
+	return true
 }
 
 // starved: a pending group pod requests more CPU (or memory) than the largest free
